@@ -6,7 +6,10 @@ import (
 	"encoding/json"
 	"fmt"
 	"io"
+	"math"
+	"regexp"
 	"slices"
+	"strconv"
 
 	"github.com/dpb587/rdfkit-go/encoding"
 	"github.com/dpb587/rdfkit-go/encoding/jsonld/jsonldcontent"
@@ -194,11 +197,17 @@ func (e *Encoder) buildResource(builder *rdfdescription.ResourceListBuilder, res
 					}
 				}
 			case rdf.Literal:
-				switch obj.Datatype {
+				datatype := obj.Datatype
+
+				if (datatype == xsdiri.Integer_Datatype || datatype == xsdiri.Double_Datatype) && !isNativeNumber(obj) {
+					// written as a typed value object below
+					datatype = ""
+				}
+
+				switch datatype {
 				case xsdiri.String_Datatype:
 					statementObject = obj.LexicalForm
 				case xsdiri.Integer_Datatype, xsdiri.Double_Datatype:
-					// TODO avoid number overflow
 					statementObject = json.Number(obj.LexicalForm)
 				case xsdiri.Boolean_Datatype:
 					switch obj.LexicalForm {
@@ -310,4 +319,38 @@ func (e *Encoder) buildResource(builder *rdfdescription.ResourceListBuilder, res
 	}
 
 	return graphItem
+}
+
+var (
+	reNativeInteger = regexp.MustCompile(`^-?(0|[1-9][0-9]*)$`)
+	reNativeDouble  = regexp.MustCompile(`^-?(0|[1-9][0-9]*)(\.[0-9]+)?([eE][+-]?[0-9]+)?$`)
+)
+
+// isNativeNumber reports whether the literal can be written as a JSON number which a JSON-LD processor maps back to
+// the same datatype and value: the lexical form is a JSON number, an integer is exact as a double, and a double is
+// not a whole number below 1e21 (which would be read as an xsd:integer).
+func isNativeNumber(obj rdf.Literal) bool {
+	switch obj.Datatype {
+	case xsdiri.Integer_Datatype:
+		if !reNativeInteger.MatchString(obj.LexicalForm) {
+			return false
+		}
+
+		v, err := strconv.ParseInt(obj.LexicalForm, 10, 64)
+
+		return err == nil && v > -(1<<53) && v < 1<<53
+	case xsdiri.Double_Datatype:
+		if !reNativeDouble.MatchString(obj.LexicalForm) {
+			return false
+		}
+
+		v, err := strconv.ParseFloat(obj.LexicalForm, 64)
+		if err != nil || math.IsInf(v, 0) {
+			return false
+		}
+
+		return v != math.Trunc(v) || math.Abs(v) >= 1e21
+	}
+
+	return false
 }
